@@ -113,7 +113,9 @@ impl Num2 { pub fn t(self) -> T { match self { Num2::I(i) => T::Int(i), Num2::F(
 const OPS: [&str; 4] = ["add", "subtract", "multiply", "divide"];
 
 /// Is the canonical text of this number re-parsed as the same value by a correct parser?
-fn text_safe(n: &T) -> bool { match n { T::Float(f) => f.fract() != 0.0, _ => true } }
+/// (tiny and huge floats print with hundreds of digits; the parser has a documented length limit,
+/// so only numbers with a short text are given to it)
+fn text_safe(n: &T) -> bool { match n { T::Float(f) => f.fract() != 0.0 && fmt_float(*f).len() <= 24, _ => true } }
 
 pub struct C12 { lists: Vec<Vec<Num2>>, n_rand: u64, seed: u64 }
 
